@@ -19,11 +19,21 @@
    variable.  Address 0 is BlankPayAddr.  Amount arithmetic is uint64 (wrap mod
    2^64), height arithmetic is `uint32(int32 + int32)` = mod 2^32.
 
-   AMP: invoices carrying the AMP-required feature and HTLC payloads carrying an
-   AMP record are in the model as far as the *rejections* go (type mismatch in
-   both directions, AMP record without MPP record); an AMP HTLC hitting an AMP
-   invoice answers DUnmodelled and leaves the state untouched (share
-   reconstruction is only exercised by the harness, see notes/C15.md).
+   AMP: an AMP HTLC (AMP + MPP record) hitting an AMP invoice is handled by
+   notify_amp: the store hands the update callback only the HTLCs of the
+   HTLC's set id (`in_set`), updateMpp runs per set, a complete set is
+   reconstructed through the Section oracle R (amp.ReconstructChildren:
+   list (share, child index) -> list (child hash, child preimage)), the code's
+   own checks (child hash = HTLC hash in reconstructAMPPreimages; preimage
+   hashes to the HTLC hash in getUpdatedHtlcState) are mirrored, a failed
+   reconstruction cancels the invoice and the set, the invoice itself stays
+   Open, AMPState[set] and AmtPaid are kept as the code keeps them.  Set ids,
+   shares are ids in N (set id 0 = the blank set id).  The KV store's
+   rewrite of a stored set (channeldb updateAMPInvoices) is mirrored: a
+   settle into an already settled set id drops the older records on KV.
+   DUnmodelled remains for one corner: a circuit key that is recorded on an
+   AMP invoice arrives again with a different payload (other set id / no AMP
+   record) -- a circuit key identifies one HTLC and its onion payload.
    The HTLC interceptor (external modification hook) is absent (mock: no-op).
 
    NO PROOFS IN THIS FILE. *)
@@ -75,6 +85,8 @@ Definition is_set_failure (oc : N) : bool :=
 
 Definition W64 : N := 18446744073709551616%N.
 Definition wadd (a b : N) : N := ((a + b) mod W64)%N.
+(* uint64 subtraction a - b *)
+Definition wsub (a b : N) : N := ((a + (W64 - b mod W64)) mod W64)%N.
 Definition u32 (x : Z) : Z := (x mod 4294967296)%Z.
 
 Record htlc := mkHtlc {
@@ -85,13 +97,25 @@ Record htlc := mkHtlc {
   h_state : hstate;
   (* ghost fields: what the HTLC arrived with; never read by the model's
      decisions, used to STATE the property *)
-  h_hash : N;           (* payment hash of the HTLC *)
+  h_hash : N;           (* payment hash of the HTLC (AMP: AMP.Hash, read by the model) *)
   h_addr : option N;    (* payment address carried (MPP record / path id) *)
-  h_ks : bool           (* carried a keysend preimage hashing to its hash *)
+  h_ks : bool;          (* carried a keysend preimage hashing to its hash *)
+  (* AMP data (InvoiceHtlcAMPData); h_set = None for non-AMP htlcs *)
+  h_set : option N;     (* AMP.Record.SetID *)
+  h_share : N;          (* AMP.Record.RootShare *)
+  h_idx : N;            (* AMP.Record.ChildIndex *)
+  h_pre : option N;     (* AMP.Preimage *)
+  h_gen : N             (* ghost: circuit key of the htlc whose arrival settled this one *)
 }.
 
 Definition set_hstate (h : htlc) (s : hstate) : htlc :=
-  mkHtlc (h_amt h) (h_total h) (h_expiry h) (h_height h) s (h_hash h) (h_addr h) (h_ks h).
+  mkHtlc (h_amt h) (h_total h) (h_expiry h) (h_height h) s (h_hash h) (h_addr h) (h_ks h)
+         (h_set h) (h_share h) (h_idx h) (h_pre h) (h_gen h).
+
+(* an accepted AMP htlc becomes settled with its reconstructed preimage *)
+Definition amp_settled (h : htlc) (p gen : N) : htlc :=
+  mkHtlc (h_amt h) (h_total h) (h_expiry h) (h_height h) HSettled (h_hash h) (h_addr h) (h_ks h)
+         (h_set h) (h_share h) (h_idx h) (Some p) gen.
 
 Record invoice := mkInv {
   i_hash : N;
@@ -104,12 +128,18 @@ Record invoice := mkInv {
   i_addr_req : bool;        (* feature PaymentAddrRequired *)
   i_state : cstate;
   i_htlcs : list (N * htlc);   (* newest first *)
-  i_paid : N                (* AmtPaid *)
+  i_paid : N;               (* AmtPaid *)
+  i_sets : list (N * (hstate * N))   (* AMPState: set id -> (State, AmtPaid) *)
 }.
 
 Definition with_htlcs (i : invoice) (st : cstate) (pre : option N) (hs : list (N * htlc)) (paid : N) :=
   mkInv (i_hash i) (i_addr i) (i_value i) pre (i_delta i) (i_hodl i) (i_amp i)
-        (i_addr_req i) st hs paid.
+        (i_addr_req i) st hs paid (i_sets i).
+
+Definition with_amp (i : invoice) (st : cstate) (hs : list (N * htlc)) (paid : N)
+           (sets : list (N * (hstate * N))) :=
+  mkInv (i_hash i) (i_addr i) (i_value i) (i_pre i) (i_delta i) (i_hodl i) (i_amp i)
+        (i_addr_req i) st hs paid sets.
 
 Inductive ksrec := KSNone | KSBad | KSPre (p : N).
 
@@ -123,14 +153,18 @@ Record hctx := mkCtx {
   c_amp : bool;             (* AMP record present *)
   c_path : option N;        (* blinded path id *)
   c_total : N;              (* payload.TotalAmtMsat (used with path id) *)
-  c_ks : ksrec              (* custom record KeySendType *)
+  c_ks : ksrec;             (* custom record KeySendType *)
+  c_set : N;                (* AMP record: set id (0 = blank), root share, child index *)
+  c_share : N;
+  c_idx : N
 }.
 
 Record cfg := mkCfg {
   g_rd : Z;                 (* FinalCltvRejectDelta *)
   g_keysend : bool;         (* AcceptKeySend *)
   g_kshold : bool;          (* KeysendHoldTime != 0 *)
-  g_kv : bool               (* true: channeldb KV store, false: native SQL store *)
+  g_kv : bool;              (* true: channeldb KV store, false: native SQL store *)
+  g_amp : bool              (* AcceptAMP (spontaneous AMP) *)
 }.
 
 Record state := mkState {
@@ -161,10 +195,14 @@ Inductive event :=
 | ENotify (c : hctx)                       (* NotifyExitHopHtlc *)
 | ESettleHodl (p : N)                      (* SettleHodlInvoice *)
 | ECancel (hash : N) (force : bool)        (* CancelInvoice / expiry watcher *)
-| ETimeout (hash : N) (addr : option N) (k : N).   (* cancelSingleHtlc(ref, k, MppTimeout) *)
+| ETimeout (hash : N) (addr : option N) (k : N)    (* cancelSingleHtlc(ref, k, MppTimeout) *)
+| ETimeoutSet (sid : N) (k : N).                   (* cancelSingleHtlc(InvoiceRefBySetID sid, k, MppTimeout) *)
 
 Section Model.
 Variable H : N -> N.     (* preimage -> payment hash *)
+(* amp.ReconstructChildren: child descriptors (root share, child index) ->
+   derived (child hash, child preimage), position by position.  No hypothesis. *)
+Variable R : list (N * N) -> list (N * N).
 
 Fixpoint find_htlc (k : N) (l : list (N * htlc)) : option htlc :=
   match l with
@@ -238,7 +276,7 @@ Definition add_invoice (g : cfg) (st : state) (i : invoice) : state * apires :=
     if negb (N.eqb (i_addr i) 0) &&
        match find_by_addr (i_addr i) (invs st) with Some _ => true | None => false end
     then (st, ADup)
-    else (mkState (with_htlcs i COpen (i_pre i) [] 0%N :: invs st) (subs st), AOk)
+    else (mkState (with_amp i COpen [] 0%N [] :: invs st) (subs st), AOk)
   end.
 
 (* ---- update.go ---- *)
@@ -258,7 +296,7 @@ Inductive upres :=
 
 Definition new_htlc (c : hctx) (total : N) (addr : option N) : htlc :=
   mkHtlc (c_amt c) total (c_expiry c) (u32 (c_height c)) HAccepted
-         (c_hash c) addr (valid_keysend c).
+         (c_hash c) addr (valid_keysend c) None 0 0 None 0.
 
 Definition update_legacy (g : cfg) (c : hctx) (i : invoice) : upres :=
   if i_amp i then UFail F_TypeMismatch
@@ -414,6 +452,169 @@ Definition subscribe (k : N) (sb : list N) : list N := if mem k sb then sb else 
 Definition htlcs_in (s : hstate) (l : list (N * htlc)) : list (N * htlc) :=
   filter (fun kh => is_state s (snd kh)) l.
 
+(* ---- AMP (updateMpp's AMP branches, update_invoice.go AMP appliers) ---- *)
+Definition in_set (sid : N) (h : htlc) : bool :=
+  match h_set h with Some s => N.eqb s sid | None => false end.
+
+Fixpoint get_set (sid : N) (l : list (N * (hstate * N))) : option (hstate * N) :=
+  match l with
+  | [] => None
+  | (s, v) :: r => if N.eqb s sid then Some v else get_set sid r
+  end.
+Fixpoint put_set (sid : N) (v : hstate * N) (l : list (N * (hstate * N)))
+  : list (N * (hstate * N)) :=
+  match l with
+  | [] => [(sid, v)]
+  | (s, w) :: r => if N.eqb s sid then (s, v) :: r else (s, w) :: put_set sid v r
+  end.
+
+(* getUpdatedInvoiceAmpState(.., HtlcStateAccepted, amt): create or add *)
+Definition set_accept (sid amt : N) (l : list (N * (hstate * N))) : list (N * (hstate * N)) :=
+  match get_set sid l with
+  | None => put_set sid (HAccepted, wadd 0 amt) l
+  | Some (s, a) => put_set sid (s, wadd a amt) l
+  end.
+
+(* cancelHtlcsAmp for one htlc: AMPState[set] -> Canceled, AmtPaid -= amt;
+   invoice AmtPaid -= amt unless it is 0.  None = "unable to update AMP state" *)
+Definition amp_cancel_acct (h : htlc) (acc : option (N * list (N * (hstate * N))))
+  : option (N * list (N * (hstate * N))) :=
+  match acc with
+  | None => None
+  | Some (paid, sets) =>
+    match h_set h with
+    | None => None
+    | Some sid =>
+      match get_set sid sets with
+      | None => None
+      | Some (_, a) =>
+        Some (if N.eqb paid 0 then paid else wsub paid (h_amt h),
+              put_set sid (HCanceled, wsub a (h_amt h)) sets)
+      end
+    end
+  end.
+
+(* cancel every accepted htlc selected by P (cancelInvoice over the fetched htlcs) *)
+Fixpoint amp_cancel_fold (P : htlc -> bool) (l : list (N * htlc))
+         (acc : option (N * list (N * (hstate * N)))) : option (N * list (N * (hstate * N))) :=
+  match l with
+  | [] => acc
+  | (_, h) :: r =>
+    if P h && is_state HAccepted h then amp_cancel_fold P r (amp_cancel_acct h acc)
+    else amp_cancel_fold P r acc
+  end.
+
+Definition cancel_sel (P : htlc -> bool) (h : htlc) : htlc :=
+  if P h && is_state HAccepted h then set_hstate h HCanceled else h.
+
+(* cancelInvoice(update.State = {Canceled, SetID}) on the htlcs selected by P
+   (P = the fetched view: one set id, or everything).  None = error. *)
+Definition amp_cancel_invoice (i : invoice) (P : htlc -> bool) : option invoice :=
+  if any_htlc (fun h => P h && is_state HSettled h) (i_htlcs i) then None
+  else match amp_cancel_fold P (i_htlcs i) (Some (i_paid i, i_sets i)) with
+       | None => None
+       | Some (paid, sets) =>
+         Some (with_amp i CCanceled (map_htlcs (cancel_sel P) (i_htlcs i)) paid sets)
+       end.
+
+(* cancelHTLCs for the single accepted htlc k (cancelSingleHtlc) *)
+Definition amp_cancel_one (i : invoice) (k : N) (h : htlc) : option invoice :=
+  match amp_cancel_acct h (Some (i_paid i, i_sets i)) with
+  | None => None
+  | Some (paid, sets) =>
+    Some (with_amp i (i_state i) (set_htlc_state k HCanceled (i_htlcs i)) paid sets)
+  end.
+
+(* child descriptors handed to amp.ReconstructChildren: the new htlc first *)
+Definition descs_of (l : list (N * htlc)) : list (N * N) :=
+  map (fun kh => (h_share (snd kh), h_idx (snd kh))) l.
+
+(* children.Hash compared with the htlc hashes, position by position *)
+Fixpoint hashes_match (l : list (N * htlc)) (ch : list (N * N)) : bool :=
+  match l, ch with
+  | [], _ => true
+  | (_, h) :: r, (ch_hash, _) :: cr => N.eqb (h_hash h) ch_hash && hashes_match r cr
+  | _ :: _, [] => false
+  end.
+
+(* HTLCPreimages: circuit key -> reconstructed preimage *)
+Fixpoint pre_map (l : list (N * htlc)) (ch : list (N * N)) : list (N * N) :=
+  match l, ch with
+  | (k, _) :: r, (_, p) :: cr => (k, p) :: pre_map r cr
+  | _, _ => []
+  end.
+Fixpoint find_pre (k : N) (m : list (N * N)) : option N :=
+  match m with
+  | [] => None
+  | (k', p) :: r => if N.eqb k k' then Some p else find_pre k r
+  end.
+
+Inductive ampres :=
+| MFail (oc : N)                       (* fail resolution, no update *)
+| MAccept (h : htlc)                   (* set incomplete: record the htlc *)
+| MHodl (h : htlc)                     (* hodl AMP invoice: update.State = Accepted *)
+| MRecon (h : htlc)                    (* reconstruction failed: CancelInvoiceUpdate *)
+| MSettle (h : htlc) (pm : list (N * N)).   (* settle the set with these preimages *)
+
+Definition new_amp_htlc (c : hctx) (total addr : N) : htlc :=
+  mkHtlc (c_amt c) total (c_expiry c) (u32 (c_height c)) HAccepted
+         (c_hash c) (Some addr) false (Some (c_set c)) (c_share c) (c_idx c) None 0.
+
+(* updateMpp for an AMP htlc on an AMP invoice; the invoice view holds the
+   htlcs of set c_set c only *)
+Definition amp_update (g : cfg) (c : hctx) (i : invoice) (addr total : N) : ampres :=
+  let sid := c_set c in
+  let acc := filter (fun kh => in_set sid (snd kh) && is_state HAccepted (snd kh)) (i_htlcs i) in
+  if negb (cstate_eqb (i_state i) COpen) then MFail F_InvoiceNotOpen
+  else if negb (N.eqb addr (i_addr i)) then MFail F_AddressMismatch
+  else if N.eqb total 0 then MFail F_SetTotalTooLow
+  else if N.ltb total (i_value i) then MFail F_SetTotalTooLow
+  else if any_htlc (fun h => negb (N.eqb (h_total h) total)) acc then MFail F_SetTotalMismatch
+  else
+    let newsum := wadd (wsum (fun _ => true) acc) (c_amt c) in
+    if negb (expiry_ok g c i) then MFail F_ExpiryTooSoon
+    else if N.eqb sid 0 then MFail F_AmpError
+    else
+      let h := new_amp_htlc c total addr in
+      if N.ltb newsum total then MAccept h
+      else if i_hodl i then MHodl h
+      else
+        let all := (c_key c, h) :: acc in
+        let ch := R (descs_of all) in
+        if hashes_match all ch then MSettle h (pre_map all ch) else MRecon h.
+
+(* addHTLCs's per-htlc loop when the set is settled: preimage assignment and
+   getUpdatedHtlcState(htlc, ContractSettled, setID).  None = error. *)
+Fixpoint amp_settle_htlcs (sid gen : N) (pm : list (N * N)) (l : list (N * htlc))
+  : option (list (N * htlc)) :=
+  match l with
+  | [] => Some []
+  | (k, h) :: r =>
+    match amp_settle_htlcs sid gen pm r with
+    | None => None
+    | Some r' =>
+      if in_set sid h && is_state HAccepted h then
+        let pre := match find_pre k pm, h_pre h with
+                   | Some p, None => Some (Some p)
+                   | Some p, Some q => if N.eqb p q then Some (Some q) else None
+                   | None, q => Some q
+                   end in
+        match pre with
+        | None => None                             (* ErrHTLCPreimageAlreadyExists *)
+        | Some None => None                        (* ErrHTLCPreimageMissing *)
+        | Some (Some p) =>
+          if N.eqb (H p) (h_hash h) then Some ((k, amp_settled h p gen) :: r')
+          else None                                (* ErrHTLCPreimageMismatch *)
+        end
+      else Some ((k, h) :: r')
+    end
+  end.
+
+(* another invoice already owns this set id (set id index / amp_sub_invoices) *)
+Definition dup_set (st : state) (i : invoice) (sid : N) : bool :=
+  existsb (fun j => negb (N.eqb (i_hash j) (i_hash i)) && any_htlc (in_set sid) (i_htlcs j))
+          (invs st).
+
 (* ---- NotifyExitHopHtlc ---- *)
 Definition ctx_ref (c : hctx) : option N * option N :=
   match c_path c with
@@ -428,14 +629,138 @@ Definition ctx_ref (c : hctx) : option N * option N :=
 Definition fail_now (st : state) (c : hctx) (oc : N) : state * (reply * list resn) :=
   (st, (RpDirect (DRes (NFail (c_key c) (c_height c) oc)), [])).
 
+Definition amp_settle_ntf (sid p0 oc : N) (l : list (N * htlc)) : list resn :=
+  map (fun kh => NSettle (fst kh) (match h_pre (snd kh) with Some p => p | None => p0 end)
+                         (h_height (snd kh)) oc)
+      (filter (fun kh => in_set sid (snd kh) && is_state HSettled (snd kh)) l).
+
+Definition amp_fail_ntf (sid oc : N) (l : list (N * htlc)) : list resn :=
+  map (fun kh => NFail (fst kh) (h_height (snd kh)) oc)
+      (filter (fun kh => in_set sid (snd kh) && is_state HCanceled (snd kh)) l).
+
+(* addHTLCs recording one accepted AMP htlc (set incomplete).  None = error *)
+Definition amp_apply_accept (i : invoice) (k : N) (h : htlc) (sid : N) : option invoice :=
+  if any_htlc (fun x => in_set sid x && is_state HSettled x) (i_htlcs i)
+  then None                                        (* ErrHTLCAlreadySettled *)
+  else Some (with_amp i (i_state i) ((k, h) :: i_htlcs i) (wadd (i_paid i) (h_amt h))
+                      (set_accept sid (h_amt h) (i_sets i))).
+
+(* addHTLCs settling set sid; kv = the KV store's rewrite of the stored set.
+   Returns (persisted invoice, in-memory htlcs used for the notifications) *)
+Definition amp_apply_settle (kv : bool) (i : invoice) (k : N) (h : htlc) (sid : N)
+           (pm : list (N * N)) : option (invoice * list (N * htlc)) :=
+  match i_pre i with
+  | Some _ => None                                 (* "AMP set cannot have preimage" *)
+  | None =>
+    let hs1 := (k, h) :: i_htlcs i in
+    match amp_settle_htlcs sid k pm hs1 with
+    | None => None
+    | Some hs2 =>
+      let sets1 := set_accept sid (h_amt h) (i_sets i) in
+      let sets2 := match get_set sid sets1 with
+                   | Some (_, a) => put_set sid (HSettled, a) sets1
+                   | None => sets1
+                   end in
+      let was_settled := match get_set sid (i_sets i) with
+                         | Some (HSettled, _) => true
+                         | _ => false
+                         end in
+      let keep := fun kh : N * htlc =>
+                    negb (in_set sid (snd kh)) ||
+                    match find_htlc (fst kh) hs1 with
+                    | Some x => is_state HAccepted x
+                    | None => false
+                    end in
+      let hs3 := if kv && was_settled then filter keep hs2 else hs2 in
+      Some (with_amp i (i_state i) hs3 (wadd (i_paid i) (h_amt h)) sets2, hs2)
+    end
+  end.
+
+(* the AMP branch of notifyExitHopHtlcLocked: AMP htlc on an AMP invoice *)
+Definition notify_amp (g : cfg) (st : state) (c : hctx) (i : invoice) (addr total : N)
+  : state * (reply * list resn) :=
+  let sid := c_set c in
+  let k := c_key c in
+  let err := (st, (RpDirect DErr, [])) in
+  match find_htlc k (i_htlcs i) with
+  | Some h =>
+    (* resolveReplayedHtlc *)
+    match h_state h with
+    | HCanceled => (st, (RpDirect (DRes (NFail k (h_height h) F_ReplayToCanceled)), []))
+    | HAccepted => (mkState (invs st) (subscribe k (subs st)), (RpDirect DNil, []))
+    | HSettled =>
+      match h_pre h with
+      | None => err
+      | Some p =>
+        if N.eqb (h_hash h) (c_hash c) && N.eqb (H p) (h_hash h) then
+          let '(sb, out) := deliver (subs st)
+                                    (amp_settle_ntf sid p S_ReplayToSettled (i_htlcs i)) in
+          (mkState (invs st) sb,
+           (RpDirect (DRes (NSettle k p (c_height c) S_ReplayToSettled)), out))
+        else err
+      end
+    end
+  | None =>
+    (* commit: the set id index check sits in AddHtlc on SQL (before the other
+       errors of the update) and in Finalize on KV (after them) *)
+    let commit := fun (A : Type) (res : option A) (ok : A -> state * (reply * list resn)) =>
+      if g_kv g then
+        match res with
+        | None => err
+        | Some x => if dup_set st i sid then fail_now st c F_InvoiceNotFound else ok x
+        end
+      else if dup_set st i sid then fail_now st c F_InvoiceNotFound
+      else match res with None => err | Some x => ok x end in
+    match amp_update g c i addr total with
+    | MFail oc =>
+      let ntf := if is_set_failure oc then amp_fail_ntf sid oc (i_htlcs i) else [] in
+      let '(sb, out) := deliver (subs st) ntf in
+      (mkState (invs st) sb, (RpDirect (DRes (NFail k (c_height c) oc)), out))
+    | MAccept h =>
+      commit invoice (amp_apply_accept i k h sid)
+             (fun i' => (mkState (put_inv i' (invs st)) (subscribe k (subs st)),
+                         (RpDirect DNil, [])))
+    | MHodl h =>
+      (* getUpdatedInvoiceState: HTLCSet(nil, Accepted) of an AMP invoice is empty *)
+      commit invoice None (fun _ => err)
+    | MRecon h =>
+      match amp_cancel_invoice i (in_set sid) with
+      | None => err
+      | Some i' =>
+        let '(sb, out) := deliver (subs st) (amp_fail_ntf sid F_AmpReconstruction (i_htlcs i')) in
+        (mkState (put_inv i' (invs st)) sb,
+         (RpDirect (DRes (NFail k (c_height c) F_AmpReconstruction)), out))
+      end
+    | MSettle h pm =>
+      match find_pre k pm with
+      | None => err
+      | Some p =>
+        commit (invoice * list (N * htlc))%type (amp_apply_settle (g_kv g) i k h sid pm)
+               (fun x =>
+                  let '(sb, out) := deliver (subs st) (amp_settle_ntf sid p S_Settled (snd x)) in
+                  (mkState (put_inv (fst x) (invs st)) sb,
+                   (RpDirect (DRes (NSettle k p (c_height c) S_Settled)), out)))
+      end
+    end
+  end.
+
 (* notifyExitHopHtlcLocked *)
 Definition notify_locked (g : cfg) (st : state) (c : hctx) : state * (reply * list resn) :=
   let '(rh, ra) := ctx_ref c in
   match lookup_ref (g_kv g) (invs st) rh ra with
   | None => fail_now st c F_InvoiceNotFound
   | Some i =>
-    if i_amp i && c_amp c && match c_mpp c with Some _ => true | None => false end
+    let amp_path := i_amp i && c_amp c && match c_mpp c with Some _ => true | None => false end in
+    if i_amp i && match find_htlc (c_key c) (i_htlcs i) with
+                  | Some h => negb (amp_path && in_set (c_set c) h)
+                  | None => false
+                  end
     then (st, (RpDirect DUnmodelled, []))
+    else if amp_path then
+      match c_mpp c with
+      | Some (a, t) => notify_amp g st c i a t
+      | None => (st, (RpDirect DErr, []))
+      end
     else
     (* outcome of the UpdateInvoice callback: (invoice after, resolution) *)
     let upd : option (invoice * option resn * bool) :=
@@ -511,13 +836,29 @@ Definition process_keysend (g : cfg) (st : state) (c : hctx) : option state :=
            if Z.ltb (c_expiry c) (u32 (c_height c + g_rd g)) then None
            else
              let i := mkInv (c_hash c) 0 (c_amt c) (Some p) (g_rd g) (g_kshold g)
-                            false false COpen [] 0 in
+                            false false COpen [] 0 [] in
              Some (fst (add_invoice g st i))
          end
   end.
 
+(* processAMP: just-in-time AMP invoice.  Returns None on "amp error". *)
+Definition process_amp (g : cfg) (st : state) (c : hctx) : option state :=
+  match c_mpp c with
+  | None => None
+  | Some (a, t) =>
+    if Z.ltb (c_expiry c) (u32 (c_height c + g_rd g)) then None
+    else
+      let i := mkInv (c_hash c) a t None (g_rd g) false true false COpen [] 0 [] in
+      Some (fst (add_invoice g st i))
+  end.
+
 Definition notify (g : cfg) (st : state) (c : hctx) : state * (reply * list resn) :=
-  if g_keysend g && negb (c_amp c) then
+  if g_amp g && c_amp c then
+    match process_amp g st c with
+    | None => fail_now st c F_AmpError
+    | Some st1 => notify_locked g st1 c
+    end
+  else if g_keysend g && negb (c_amp c) then
     match process_keysend g st c with
     | None => fail_now st c F_KeySendError
     | Some st1 => notify_locked g st1 c
@@ -557,7 +898,7 @@ Definition cancel_invoice (g : cfg) (st : state) (hash : N) (force : bool)
     | s =>
       if cstate_eqb s CAccepted && negb force then (st, (RpApi AOk, []))
       else
-        match apply_cancel i with
+        match (if i_amp i then amp_cancel_invoice i (fun _ => true) else apply_cancel i) with
         | None => (st, (RpApi AOther, []))
         | Some i' =>
           let ntf := map (fun kh => NFail (fst kh) (h_height (snd kh)) F_Canceled)
@@ -581,10 +922,37 @@ Definition timeout_htlc (g : cfg) (st : state) (hash : N) (addr : option N) (k :
       | Some h =>
         if negb (is_state HAccepted h) then (st, (RpApi AOk, []))
         else
-          let i' := with_htlcs i (i_state i) (i_pre i)
-                               (set_htlc_state k HCanceled (i_htlcs i)) (i_paid i) in
-          let '(sb, out) := deliver (subs st) [NFail k (h_height h) F_MppTimeout] in
-          (mkState (put_inv i' (invs st)) sb, (RpApi AOk, out))
+          match (if i_amp i then amp_cancel_one i k h
+                 else Some (with_htlcs i (i_state i) (i_pre i)
+                                       (set_htlc_state k HCanceled (i_htlcs i)) (i_paid i))) with
+          | None => (st, (RpApi AOther, []))
+          | Some i' =>
+            let '(sb, out) := deliver (subs st) [NFail k (h_height h) F_MppTimeout] in
+            (mkState (put_inv i' (invs st)) sb, (RpApi AOk, out))
+          end
+      end
+  end.
+
+(* ---- cancelSingleHtlc(InvoiceRefBySetID sid, k, ResultMppTimeout): the
+   release timer of an AMP htlc; only the htlcs of set sid are fetched ---- *)
+Definition timeout_set (g : cfg) (st : state) (sid k : N) : state * (reply * list resn) :=
+  match find (fun i => i_amp i && any_htlc (in_set sid) (i_htlcs i)) (invs st) with
+  | None => (st, (RpApi ANotFound, []))
+  | Some i =>
+    if negb (cstate_eqb (i_state i) COpen) then (st, (RpApi AOk, []))
+    else
+      match find_htlc k (i_htlcs i) with
+      | None => (st, (RpApi AOther, []))
+      | Some h =>
+        if negb (in_set sid h) then (st, (RpApi AOther, []))
+        else if negb (is_state HAccepted h) then (st, (RpApi AOk, []))
+        else
+          match amp_cancel_one i k h with
+          | None => (st, (RpApi AOther, []))
+          | Some i' =>
+            let '(sb, out) := deliver (subs st) [NFail k (h_height h) F_MppTimeout] in
+            (mkState (put_inv i' (invs st)) sb, (RpApi AOk, out))
+          end
       end
   end.
 
@@ -595,6 +963,7 @@ Definition step (g : cfg) (st : state) (e : event) : state * (reply * list resn)
   | ESettleHodl p => settle_hodl g st p
   | ECancel h f => cancel_invoice g st h f
   | ETimeout h a k => timeout_htlc g st h a k
+  | ETimeoutSet sid k => timeout_set g st sid k
   end.
 
 Fixpoint run (g : cfg) (st : state) (evs : list event) : state * list (reply * list resn) :=
